@@ -54,25 +54,33 @@ def order_vote_rule(cx):
     where the hull's index list starts, i.e. on the frame"""
     # ---------------------------------------------------------------- sibling vote
     votes = {}
+    from vpa import comp as CMP
+    H = '(call *convex_hull_2d (param points))'
+    I = f'(itervar (range 0 (len {H})))'
     for fn in ('geom2::hull::point_order_direction', 'geom2::curve2::Curve2::from_points_ccw'):
         b = cx.fn(fn)
         if not b:
             continue
         dag = b.dag()
-        cars = []
+        tested = []
         for bi in b.live:
             t = b.blocks[bi]['term']
             if bi in b.reachable() and t['k'] == 'switch':
                 c = simplify(dag.operand(t['d'], bi, len(b.blocks[bi]['stmts'])))
                 if c[0] == 'lt' and c[1] == ('const', 0):
-                    lp = [x for x in subterms(c[2]) if x[0] == 'loop']
-                    if lp:
-                        cars.append(simplify(dag.carried(lp[0][1], lp[0][2])))
-        ok = len(cars) == 1 and match('(add _ (call i32::signum (sub (index $h (rem (add 1 $i) (len $h))) (index $h $i))))', cars[0]) is not None
-        e = match('(add _ (call i32::signum (sub (index $h (rem (add 1 $i) (len $h))) (index $h $i))))', cars[0]) if cars else None
-        ok = ok and e is not None and match('(call *convex_hull_2d (param points))', e['h']) is not None
-        if not cars:
-            ok = _vote_as_sum(cx, b)
+                    tested.append(c[2])
+        ok = False
+        if len(tested) == 1:
+            # an accumulator loop over 0..len, or hull.iter().enumerate().map(..).sum(): one reduction, no condition
+            r = CMP.reduction(cx, b, tested[0])
+            ok = r is not None and r['op'] == 'sum' and not r['conds'] and r['src'] is not None and match(H, r['src']) is not None and \
+                r['init'] == ('const', 0) and match(f'(call i32::signum (sub (index {H} (rem (add 1 {I}) (len {H}))) (index {H} {I})))', r['elem']) is not None
+            if r is not None and r['form'] == 'loop':
+                from vpa import term as T
+                okx, why = T.exhaustive_loops(cx, b)
+                ok = ok and okx
+            if not ok:
+                ok = _vote_as_sum(cx, b)       # the cyclic-successor pairing h.zip(h.cycle().skip(1))
         votes[fn] = ok
     cx.ob('EXPR', 'order-vote:siblings', votes == {'geom2::hull::point_order_direction': True, 'geom2::curve2::Curve2::from_points_ccw': True},
           'both order detectors sum signum(hull[(i+1)%n] - hull[i]) over the convex hull of the input and decide on `sum > 0` (counter-clockwise / keep order)', found=str(votes))
